@@ -24,5 +24,16 @@ HNext == \/ Next
          \/ \E f \in HData \cup ForgedSyncs : ForgeD(f)
 HSpec == Init /\ [][HNext]_vars
 
+(* C15 on the model, as action properties:
+   - an acknowledgement frame none of whose groups is valid (unknown frames, or a nonce that does not reproduce the
+     parity of the frames it claims) acts on the sender exactly like the same frame without any group;
+   - once an acknowledgement frame has been applied, applying its groups again changes neither the frame log nor
+     the fragment acknowledgements (a duplicated or replayed copy has no further effect). *)
+InvalidGroupsNoEffect ==
+    [][\A f \in HAcks : (ForgeA(f) /\ \A i \in 1..Len(f.groups) : ~GroupValid(fLog, fLogBase, f.groups[i]))
+                            => HandleAck([f EXCEPT !.groups = <<>>])]_vars
+AckIdempotent ==
+    [][\A f \in BagToSet(netA) : DeliverA(f) => ApplyGroups(fLog', fLogBase', sWin', f.groups) = <<fLog', sWin'>>]_vars
+
 CountersSane == sAlloc >= 0 /\ sTotal >= 0 /\ rAlloc >= 0 /\ \A c \in Chans : chCount[c] >= 0
 ====================================================================================
